@@ -1,5 +1,6 @@
 (* C01 — evaluation of the model on harness-written cases (correspondence check). *)
 From Coq Require Import List NArith ZArith String Bool.
+From V.Base Require Import Hex.
 From V.C01 Require Import Model.
 Import ListNotations.
 
@@ -29,9 +30,10 @@ Inductive c01case :=
    (ok, sender balance named in the response, balances of the involved accounts afterwards) *)
 | CTransfer (src : N) (init : list (N * Z)) (tgts : list (string * N * option Z))
             (obs : list (bool * option Z * list (N * Z)))
-(* sort.Sort(types.Transactions): (RequestId, Source, numeric Source, Nonce, numeric Hash) in generation
-   order; the hashes in the order the implementation produced from a shuffle *)
-| CSort (txs : list (N * string * N * N * N)) (sorted : list N)
+(* sort.Sort(types.Transactions): (RequestId, Source, hex of common.FromHex(Source), Nonce, hex of Hash) in
+   generation order; the hashes (hex) in the order the implementation produced from a shuffle.
+   big.Int.SetBytes = big-endian value, computed here. *)
+| CSort (txs : list (N * string * string * N * string)) (sorted : list string)
 (* RefundManager.Add(data): escrow cells before, data (height, [(id, value)]), cells read back *)
 | CRefund (pre : list (N * N * Z)) (data : list (N * list (N * Z))) (obs : list (N * N * Z))
 (* CheckAndMove(height): escrow cells of the height (id, value), balances before, balances after, and
@@ -41,7 +43,8 @@ Inductive c01case :=
 | CGenCode (castor : N) (proposals : list (string * N)) (members : list N) (obs : list N).
 
 Definition mk_target (t : string * N * option Z) : target := let '(k, a, v) := t in mkT k a v.
-Definition mk_tx (t : N * string * N * N * N) : tx := let '(r, s, sn, n, h) := t in mkTx r s sn n h.
+Definition mk_tx (t : N * string * string * N * string) : tx :=
+  let '(r, s, sn, n, h) := t in mkTx r s (be_val (unhex sn)) n (be_val (unhex h)).
 
 Definition ca_result_agree (dom : list N) (r1 r2 : ca_result) : bool :=
   match r1, r2 with
@@ -80,11 +83,12 @@ Definition txs_okb (l : list tx) : bool :=
 
 (* the list is admissible, the implementation's order is the model's, and (instance of the uniqueness
    theorem) sorting the reversed list gives the same result *)
-Definition chk_sort (txs : list (N * string * N * N * N)) (sorted : list N) : bool :=
+Definition chk_sort (txs : list (N * string * string * N * string)) (sorted : list string) : bool :=
   let l := map mk_tx txs in
+  let want := map (fun h => be_val (unhex h)) sorted in
   txs_okb l &&
-  (if list_eq_dec N.eq_dec (map x_hash (sort_txs l)) sorted then true else false) &&
-  (if list_eq_dec N.eq_dec (map x_hash (sort_txs (rev l))) sorted then true else false).
+  (if list_eq_dec N.eq_dec (map x_hash (sort_txs l)) want then true else false) &&
+  (if list_eq_dec N.eq_dec (map x_hash (sort_txs (rev l))) want then true else false).
 
 Definition chk_refund pre data (obs : list (N * N * Z)) : bool :=
   let s := refund_add data (lookup_cell pre) in
